@@ -144,6 +144,7 @@ func (r *reader) ConsumeByKey(key []byte, keyHash []byte, offset, maxCount int64
 	}
 
 	positions, err := ix.Keys(keyHash)
+	vhook.At("reader.consumeByKey.afterKeys")
 	switch err {
 	case nil:
 		break
